@@ -302,11 +302,13 @@ def observe_graph(spec):
         text = r[1]
         o['json'] = json.loads(text)
         lr = _try(lambda: json.loads(text, cls=Serializer))
-        nodes = observe_loaded_graph(lr[1], type(graph)) if lr[0] == 'ok' else None
-        if nodes is not None:
+        nr = _try(lambda: observe_loaded_graph(lr[1], type(graph))) if lr[0] == 'ok' else ('exc', '')
+        nodes = nr[1] if nr[0] == 'ok' else None
+        sn = _try(lambda: snap_nodes(nodes, len(objs))) if nodes is not None else ('exc', '')
+        if sn[0] == 'ok':
             loaded = lr[1]
             base = len(objs)
-            o['loaded'] = (snap_nodes(nodes, base), [base + i for i in range(len(nodes))])
+            o['loaded'] = (sn[1], [base + i for i in range(len(nodes))])
             o['shares'] = any(id(n) in {id(x) for x in objs} for n in nodes)
             r2 = _try(lambda: dumps(loaded))
             if r2[0] == 'ok':
@@ -314,10 +316,10 @@ def observe_graph(spec):
                 o['text_same'] = (r2[1] == text)
             d1, d2 = _try(lambda: graph.descriptive_id), _try(lambda: loaded.descriptive_id)
             o['descid_same'] = (d1 == d2)
-            inner = loaded.operator if spec['kind'] == 'opt' else loaded
             o['eq'] = (_try(lambda: (graph == loaded, loaded == graph)) == ('ok', (True, True))
-                       and inner._postprocess_nodes is LinkedGraph._empty_postprocess
-                       and [n.name for n in loaded.nodes] == [n.name for n in graph.nodes]
+                       and _try(lambda: (loaded.operator if spec['kind'] == 'opt' else loaded)._postprocess_nodes
+                                is LinkedGraph._empty_postprocess) == ('ok', True)
+                       and _try(lambda: [n.name for n in loaded.nodes]) == ('ok', [n.name for n in graph.nodes])
                        and not o['shares'])
     return h, o
 
@@ -578,19 +580,21 @@ def observe_individual(spec, via_methods):
         o['json'] = json.loads(text)
         lr = _try(lambda: Individual.load(text) if via_methods else json.loads(text, cls=Serializer))
         loaded = lr[1] if lr[0] == 'ok' and type(lr[1]) is Individual else None
-        nodes = observe_loaded_graph(loaded.graph, type(ind.graph)) if loaded is not None else None
+        nr = _try(lambda: observe_loaded_graph(loaded.graph, type(ind.graph))) if loaded is not None else ('exc', '')
+        nodes = nr[1] if nr[0] == 'ok' else None
         if nodes is not None:
             base = len(objs)
-            lrec = rec_individual(loaded)
-            if lrec is not None:
-                o['loaded'] = (snap_nodes(nodes, base), lrec, [base + i for i in range(len(nodes))])
+            # a loaded object that lacks an attribute cannot be described: it counts as not loaded
+            lr2 = _try(lambda: (snap_nodes(nodes, base), rec_individual(loaded), [base + i for i in range(len(nodes))]))
+            if lr2[0] == 'ok' and lr2[1][1] is not None:
+                o['loaded'] = lr2[1]
             r2 = _try(lambda: loaded.save() if via_methods else dumps(loaded))
             if r2[0] == 'ok':
                 o['resave'] = json.loads(r2[1])
                 o['text_same'] = (r2[1] == text)
             o['descid_same'] = (_try(lambda: ind.graph.descriptive_id) == _try(lambda: loaded.graph.descriptive_id)
-                                and ind == loaded)
-            lf, of = loaded.fitness, ind.fitness
+                                and _try(lambda: ind == loaded) == ('ok', True))
+            lf, of = getattr(loaded, 'fitness', None), ind.fitness
             outs = []
             for op in CMP:
                 ref = _try(lambda: op(of, of))
